@@ -107,7 +107,7 @@ pub fn local_ray_intersection_with_triangle(
     let time_of_impact;
     let normal;
 
-    if t < 0.0 {
+    if fid == 1 {
         v = -ac.dot(&e);
 
         if v < 0.0 || v > d {
